@@ -131,6 +131,15 @@ pub fn run(tier: Tier, seed: u64) -> i32 {
                 if !lay.is_empty() {
                     st.nontrivial += 1;
                 }
+                // history of the thread: every other text is parsed right after texts that fail to parse
+                // after some valid rows (a row of the wrong width far down, an unsupported statement,
+                // a loop that is never closed): nothing of a failed parse may leak into the next one
+                if li % 2 == 1 {
+                    for poison in ["X Y\n1 1\n\n\n\n\n\n\n1 1 1\n", "X Y\n\n\n1 1\n1 0\nprogram(1)\n", "X Y\n1 1\n# c\nloop(k,2)\n1 1\n"] {
+                        let _ = parse(poison, DEFAULT_BUDGET);
+                    }
+                    st.witness("parsed_after_failed_parses_on_the_same_thread");
+                }
                 let tc = load(&laid.text, &sigs, DEFAULT_BUDGET);
                 let obs = match &tc {
                     Ok(tc) => run_loaded(tc, &sigs, true, &script, &opts),
@@ -244,7 +253,7 @@ pub fn run(tier: Tier, seed: u64) -> i32 {
         seed,
         rule: "every program of the space that yields at least one row x every layout with at most 2 deviations from the canonical one-statement-per-line layout; the expected line of each row is recorded by the generator when it lays the text out; dynamic API, static API (when the program is static) and the same text loaded through a generated .dig document; non-trivial = at least one deviation".into(),
         assumptions: vec!["the generating printer (layout.rs) is the oracle for line numbers; only the line field is compared here".into()],
-        required_witnesses: vec!["blank_line_before_header", "comment_line_inserted", "blank_line_inserted", "crlf", "trailing_comment", "no_final_newline", "static_api_lines_compared", "loaded_from_dig_document", "companion_iterator_advanced_in_between", "row_on_a_line_beyond_65535", "indented_line", "while_ran_1"],
+        required_witnesses: vec!["blank_line_before_header", "comment_line_inserted", "blank_line_inserted", "crlf", "trailing_comment", "no_final_newline", "static_api_lines_compared", "loaded_from_dig_document", "companion_iterator_advanced_in_between", "row_on_a_line_beyond_65535", "indented_line", "while_ran_1", "parsed_after_failed_parses_on_the_same_thread"],
         exhaustive_note: "all programs x all layouts within the bounds (K=4 in the thorough tier with single deviations)".into(),
         e1: false,
     };
